@@ -17,6 +17,7 @@ package main
 import (
 	"fmt"
 	"go/constant"
+	"go/token"
 	"go/types"
 	"path/filepath"
 	"sort"
@@ -126,7 +127,7 @@ func guardedBy1(p *Prog, r *Report, rule string, specs []guardSpec) {
 
 func checkC18(p *Prog, r *Report) {
 	r.NotCov = append(r.NotCov,
-		"fields that are never locked anywhere and rely on confinement (client.keyspace/compression confined to the connection's reader, Cluster state confined to stayConnected): no sound static argument separates confinement from a race here; the dynamic race detector is the tool for them",
+		"unlocked state of objects other than the client connection object and the cluster object (for those two C18.confined decides confinement to the serving goroutine over the call graph: context-insensitive, closures handed to library functions are attributed to the function that contains them); anything only an execution shows (the dynamic race detector is the tool)",
 		"happens-before through channels, WaitGroups and goroutine start beyond the frozen exceptions")
 	guardedBy1(p, r, "C18.guarded-by", guardTable)
 	r.Floor("C18.guarded-by", 25, "(field, function) access groups")
@@ -138,6 +139,7 @@ func checkC18(p *Prog, r *Report) {
 	c18Publication(p, r)
 	c18SharedMaps(p, r)
 	c18WriteModes(p, r)
+	c18Confined(p, r)
 }
 
 func c18Types(p *Prog, r *Report) {
@@ -947,7 +949,8 @@ func c18WriteModes(p *Prog, r *Report) {
 							continue // the options literal of this caller leaves the flag false
 						}
 					}
-					if !prePublication(p, cs.Parent(), ws.owner) {
+					if !prePublication(p, cs.Parent(), ws.owner) && len(rootSet(cs.Parent())) > 0 {
+						// (a caller no goroutine entry point reaches is start-up code, as for the writes below)
 						allPre = false
 					}
 				}
@@ -1032,4 +1035,418 @@ func boolFieldOfArg(a ssa.Value, f *types.Var) (bool, bool) {
 		return val, true
 	}
 	return false, false
+}
+
+// c18Confined: the per-connection object of a client (the proxy's implementation of
+// proxycore.Receiver) keeps plain, unlocked state (current keyspace, negotiated compression,
+// the tables of locally prepared system queries).  That is race-free only by confinement: the
+// connection's reader loop is the single goroutine that calls the object's entry points, and
+// nothing that other goroutines run (backend readers delivering results, the event fan-out,
+// timers, goroutines started anywhere) touches those fields.  Decided: (1) the entry points are
+// called from one goroutine entry only; (2) every field that is written after the object is
+// built, and is not of a concurrency-safe type nor in the guarded-by table, is accessed only in
+// functions that goroutine reaches through the entry points and that no other goroutine reaches.
+func c18Confined(p *Prog, r *Report) {
+	const rule = "C18.confined"
+	r.Rule(rule, "a plain field of an object served by one goroutine (the per-client connection object served by the connection's reader; the cluster object served by its control loop) that is written after construction is accessed only by that goroutine: never from a backend reader, the event fan-out, a timer or a goroutine started elsewhere")
+	owner := p.proxyClientType()
+	var own []*ssa.Function
+	for _, root := range c17Roots(p) {
+		if recvNamed(root) == owner && root.Parent() == nil {
+			own = append(own, root)
+		}
+	}
+	c18ConfinedOwner(p, r, rule, owner, own, true)
+	cl := p.NamedOpt("proxycore", "Cluster")
+	loop := p.FuncOpt("proxycore", "(*Cluster).stayConnected")
+	if cl == nil || loop == nil {
+		fatalf("anchor: proxycore.Cluster / its control loop not found")
+	}
+	c18ConfinedOwner(p, r, rule, cl, []*ssa.Function{loop}, false)
+}
+
+// c18ConfinedOwner: own are the goroutine entry points serving objects of type owner.  With
+// viaCallers the entry points are callbacks (they must all be called from one function that is
+// itself started with `go`); otherwise they are started with `go` themselves.
+func c18ConfinedOwner(p *Prog, r *Report, rule string, owner *types.Named, own []*ssa.Function, viaCallers bool) {
+	st, ok := owner.Underlying().(*types.Struct)
+	if !ok {
+		fatalf("anchor: the type %s is not a struct", owner.Obj().Name())
+	}
+	scoped := p.ScopedFuncs("proxy", "proxycore", "astra")
+	var other []*ssa.Function
+	isOwnRoot := map[*ssa.Function]bool{}
+	for _, o := range own {
+		isOwnRoot[o] = true
+	}
+	for _, root := range c17Roots(p) {
+		if !isOwnRoot[root] {
+			other = append(other, root)
+		}
+	}
+	if len(own) == 0 {
+		fatalf("anchor: no goroutine entry point on the type %s", owner.Obj().Name())
+	}
+	isOwn := map[*ssa.Function]bool{}
+	for _, o := range own {
+		isOwn[o] = true
+	}
+	// (1) one goroutine: all callers of the entry points are one function, itself started by `go`
+	goTargets := map[*ssa.Function]bool{}
+	for _, fn := range scoped {
+		eachInstr(fn, func(in ssa.Instruction) {
+			g, ok := in.(*ssa.Go)
+			if !ok {
+				return
+			}
+			if n := p.CG.Nodes[fn]; n != nil {
+				for _, e := range n.Out {
+					if e.Site == ssa.CallInstruction(g) && e.Callee.Func != nil {
+						goTargets[e.Callee.Func] = true
+					}
+				}
+			}
+			if c := g.Call.StaticCallee(); c != nil {
+				goTargets[c] = true
+			}
+			// functions handed to a timer run on the timer's goroutine
+		})
+		eachInstr(fn, func(in ssa.Instruction) {
+			c, ok := in.(*ssa.Call)
+			if !ok {
+				return
+			}
+			if sc := c.Call.StaticCallee(); sc != nil && sc.Pkg != nil && sc.Pkg.Pkg.Path() == "time" && sc.Name() == "AfterFunc" && len(c.Call.Args) == 2 {
+				for _, o := range origins(c.Call.Args[1]) {
+					switch f := o.(type) {
+					case *ssa.MakeClosure:
+						if cf, ok := f.Fn.(*ssa.Function); ok {
+							goTargets[cf] = true
+						}
+					case *ssa.Function:
+						goTargets[f] = true
+					}
+				}
+			}
+		})
+	}
+	var ctorGo map[*ssa.Function]*ssa.Go
+	if viaCallers {
+		callers := map[*ssa.Function]bool{}
+		for _, o := range own {
+			if n := p.CG.Nodes[o]; n != nil {
+				for _, e := range n.In {
+					if e.Caller.Func != nil && p.InRepo(e.Caller.Func) {
+						callers[e.Caller.Func] = true
+					}
+				}
+			}
+		}
+		var cl []string
+		oneLoop := len(callers) == 1
+		for c := range callers {
+			cl = append(cl, c.String())
+			if !goTargets[c] {
+				oneLoop = false
+			}
+		}
+		sort.Strings(cl)
+		r.check(oneLoop, rule, "the entry points of "+owner.Obj().Name()+" run on one goroutine", "", fmt.Sprintf("%d entry points, called from %s", len(own), strings.Join(cl, ", ")), fmt.Sprintf("the entry points of %s are called from %s: they must all be called from the one reader loop of the connection, itself started with `go`, or the object's unlocked fields are shared between goroutines", owner.Obj().Name(), strings.Join(cl, ", ")))
+	} else {
+		// the loop is started exactly once per object: one `go` site, in the function that builds the object
+		var sites []string
+		nsites := 0
+		inCtor := true
+		ctorGo = map[*ssa.Function]*ssa.Go{}
+		for _, o := range own {
+			if n := p.CG.Nodes[o]; n != nil {
+				for _, e := range n.In {
+					if e.Caller.Func == nil || !p.InRepo(e.Caller.Func) {
+						continue
+					}
+					nsites++
+					sites = append(sites, e.Caller.Func.String())
+					g, isGo := e.Site.(*ssa.Go)
+					if !isGo {
+						inCtor = false
+						continue
+					}
+					built := false
+					if len(g.Call.Args) > 0 {
+						for _, o := range origins(g.Call.Args[0]) {
+							if a, ok := o.(*ssa.Alloc); ok && a.Parent() == e.Caller.Func {
+								built = true
+							}
+						}
+					}
+					if !built {
+						inCtor = false
+					} else {
+						ctorGo[e.Caller.Func] = g
+					}
+				}
+			}
+		}
+		sort.Strings(sites)
+		r.check(nsites == 1 && inCtor, rule, "the control loop of "+owner.Obj().Name()+" is started once per object", "", "one `go` site, in "+strings.Join(sites, ", ")+", on the object built there", fmt.Sprintf("the control loop of %s is started from %s: it must be started with `go` exactly once, by the function that builds the object, or two loops share the object's unlocked fields", owner.Obj().Name(), strings.Join(sites, ", ")))
+	}
+
+	reach := func(roots []*ssa.Function, cut map[*ssa.Function]bool, followGo bool) map[*ssa.Function]bool {
+		seen := map[*ssa.Function]bool{}
+		work := append([]*ssa.Function(nil), roots...)
+		var deferred []*ssa.Function
+		for len(work) > 0 {
+			fn := work[len(work)-1]
+			work = work[:len(work)-1]
+			if fn == nil || seen[fn] || cut[fn] {
+				if len(work) == 0 {
+					rest := deferred[:0]
+					for _, cb := range deferred {
+						if seen[cb.Parent()] && !seen[cb] {
+							work = append(work, cb)
+						} else if !seen[cb] {
+							rest = append(rest, cb)
+						}
+					}
+					deferred = rest
+				}
+				continue
+			}
+			seen[fn] = true
+			if n := p.CG.Nodes[fn]; n != nil {
+				for _, e := range n.Out {
+					if _, isGo := e.Site.(*ssa.Go); isGo && !followGo {
+						continue
+					}
+					// a library function calling back into the program (slices.IndexFunc, sort.Slice,
+					// sync.Map.Range ...): the call graph merges the callbacks of all its callers; a
+					// func literal is passed by the function that contains it, so it is reached this
+					// way only once its enclosing function is (checked again until nothing changes)
+					if cb := e.Callee.Func; cb != nil && cb.Parent() != nil && !p.InRepo(fn) && p.InRepo(cb) {
+						deferred = append(deferred, cb)
+						continue
+					}
+					work = append(work, e.Callee.Func)
+				}
+			}
+			for _, a := range fn.AnonFuncs {
+				if !followGo && goTargets[a] {
+					continue
+				}
+				work = append(work, a)
+			}
+			if len(work) == 0 {
+				rest := deferred[:0]
+				for _, cb := range deferred {
+					if seen[cb.Parent()] {
+						work = append(work, cb)
+					} else {
+						rest = append(rest, cb)
+					}
+				}
+				deferred = rest
+			}
+		}
+		return seen
+	}
+	for g := range goTargets {
+		if !isOwn[g] {
+			other = append(other, g)
+		}
+	}
+	viaOwn := reach(own, nil, false)
+	viaOther := reach(other, isOwn, true)
+	// a write that happens only while the object is being started: it is guarded by a boolean
+	// parameter of its function, and every call from the serving goroutine passes `false`
+	startupOnly := func(acc fieldAccess) bool {
+		if !acc.Write {
+			return false
+		}
+		for _, ct := range dominatingConds(acc.Instr.Block()) {
+			if !ct.Truth {
+				continue
+			}
+			// the flag: a boolean parameter, or a boolean field of a parameter of struct type
+			var par *ssa.Parameter
+			var flagF *types.Var
+			switch c := deSpill(ct.Cond).(type) {
+			case *ssa.Parameter:
+				par = c
+			case *ssa.Field:
+				if q, ok := deSpill(c.X).(*ssa.Parameter); ok {
+					par, flagF = q, fieldOfVal(c)
+				}
+			case *ssa.UnOp:
+				if fa, ok := c.X.(*ssa.FieldAddr); ok && c.Op == token.MUL {
+					switch b := fa.X.(type) {
+					case *ssa.Parameter:
+						par, flagF = b, fieldOfAddr(fa)
+					case *ssa.Alloc: // a struct parameter spilled to a local
+						var stored ssa.Value
+						nst := 0
+						for _, ref := range *b.Referrers() {
+							if st, ok := ref.(*ssa.Store); ok && st.Addr == ssa.Value(b) {
+								stored = st.Val
+								nst++
+							}
+						}
+						if q, ok := stored.(*ssa.Parameter); ok && nst == 1 {
+							par, flagF = q, fieldOfAddr(fa)
+						}
+					}
+				}
+			}
+			if par == nil || par.Parent() != acc.Fn {
+				continue
+			}
+			idx := -1
+			for i, q := range acc.Fn.Params {
+				if q == par {
+					idx = i
+				}
+			}
+			n := p.CG.Nodes[acc.Fn]
+			if idx < 0 || n == nil {
+				continue
+			}
+			okAll, seen := true, 0
+			for _, e := range n.In {
+				if e.Caller.Func == nil || !(viaOwn[e.Caller.Func] || viaOther[e.Caller.Func]) {
+					continue // a caller no goroutine entry reaches: the start-up path
+				}
+				seen++
+				args := e.Site.Common().Args
+				if e.Site.Common().IsInvoke() || idx >= len(args) {
+					okAll = false
+					continue
+				}
+				if flagF == nil {
+					c, isConst := args[idx].(*ssa.Const)
+					if !isConst || c.Value == nil || c.Value.String() != "false" {
+						okAll = false
+					}
+					continue
+				}
+				// every literal of the parameter's struct type built by that caller leaves the flag false
+				want := namedOf(par.Type())
+				lits := structLits(e.Caller.Func, func(t types.Type) bool { return want != nil && namedOf(t) == want })
+				if len(lits) == 0 {
+					okAll = false
+				}
+				for _, lit := range lits {
+					if v, set := lit[flagF.Name()]; set {
+						if c, isConst := v.(*ssa.Const); !isConst || c.Value == nil || c.Value.String() != "false" {
+							okAll = false
+						}
+					}
+				}
+			}
+			if okAll && seen > 0 {
+				return true
+			}
+		}
+		return false
+	}
+	guarded := map[*types.Var]bool{}
+	for _, g := range guardTable {
+		if f := p.FieldOpt(g.pkg, g.typ, g.field); f != nil {
+			guarded[f] = true // decided by C18.guarded-by
+		}
+	}
+	// startupPath: fn is reached by no goroutine entry at all and every chain of callers ends in the
+	// function that builds the object, at a call that comes before the `go` starting the loop
+	startupPath := func(fn *ssa.Function) bool {
+		if len(ctorGo) == 0 || viaOwn[fn] || viaOther[fn] {
+			return false
+		}
+		seen := map[*ssa.Function]bool{}
+		var up func(f *ssa.Function) bool
+		up = func(f *ssa.Function) bool {
+			if seen[f] {
+				return true
+			}
+			seen[f] = true
+			n := p.CG.Nodes[f]
+			if n == nil {
+				return false
+			}
+			ncallers := 0
+			for _, e := range n.In {
+				caller := e.Caller.Func
+				if caller == nil || !p.InRepo(caller) {
+					continue
+				}
+				ncallers++
+				if g, isCtor := ctorGo[caller]; isCtor {
+					sb, gb := e.Site.Block(), g.Block()
+					before := sb != gb && sb.Dominates(gb)
+					if sb == gb {
+						for _, in := range sb.Instrs {
+							if in == ssa.Instruction(e.Site) {
+								before = true
+								break
+							}
+							if in == ssa.Instruction(g) {
+								break
+							}
+						}
+					}
+					if !before {
+						return false
+					}
+					continue
+				}
+				if viaOwn[caller] || viaOther[caller] || !up(caller) {
+					return false
+				}
+			}
+			return ncallers > 0
+		}
+		return up(fn)
+	}
+	nf, na := 0, 0
+	for i := 0; i < st.NumFields(); i++ {
+		f := st.Field(i)
+		t := f.Type()
+		if pt, ok := t.(*types.Pointer); ok {
+			t = pt.Elem()
+		}
+		if isMutexType(t) || isConcurrencySafeType(t) || guarded[f] {
+			continue
+		}
+		accs := fieldAccesses(scoped, f)
+		var post []fieldAccess
+		written := false
+		for _, acc := range accs {
+			if a, ok := acc.Base.(*ssa.Alloc); ok && a.Parent() == acc.Fn {
+				continue // the object is being built
+			}
+			if startupOnly(acc) {
+				continue
+			}
+			post = append(post, acc)
+			if acc.Write {
+				written = true
+			}
+		}
+		if !written {
+			continue // never changes once the connection is served: any goroutine may read it
+		}
+		nf++
+		var bad []string
+		for _, acc := range post {
+			na++
+			switch {
+			case viaOther[acc.Fn]:
+				bad = append(bad, fmt.Sprintf("%s: %s accesses %s.%s (%s) and runs on a goroutine other than the one serving the object (reachable from a backend reader, event, timer or `go` entry without passing through %s's own entry points), while the serving goroutine writes the field without a lock", p.Pos(acc.Instr.Pos()), acc.Fn.String(), owner.Obj().Name(), f.Name(), acc.Kind, owner.Obj().Name()))
+			case !viaOwn[acc.Fn] && startupPath(acc.Fn):
+				// runs before the serving goroutine exists
+			case !viaOwn[acc.Fn]:
+				bad = append(bad, fmt.Sprintf("%s: %s accesses %s.%s (%s) but is not reached from the object's own entry points: which goroutine runs it is unknown, and the field is written without a lock", p.Pos(acc.Instr.Pos()), acc.Fn.String(), owner.Obj().Name(), f.Name(), acc.Kind))
+			}
+		}
+		r.check(len(bad) == 0, rule, owner.Obj().Name()+"."+f.Name(), "", fmt.Sprintf("%d accesses after construction, all confined to the serving goroutine", len(post)), strings.Join(dedupe(bad), " || "))
+	}
+	r.count("confined_fields", nf)
+	r.count("confined_field_accesses", na)
 }
